@@ -1,0 +1,15 @@
+//go:build verif
+
+package trie
+
+import (
+	"github.com/kardiachain/go-kardia/lib/common"
+	"github.com/kardiachain/go-kardia/trie/triedb/hashdb"
+)
+
+// VerifDirtyNodes returns the hashes of the nodes that the hash-based backend currently keeps
+// in memory (hashdb.Database.dirties).  Used by /verif (family mpt, property C07) to compare the
+// effect of Reference / Dereference / Commit / Cap with the specification; add-only, build tag verif.
+func (db *Database) VerifDirtyNodes() []common.Hash {
+	return db.backend.(*hashdb.Database).Nodes()
+}
